@@ -98,7 +98,8 @@ pub fn lookup_blocking(
                 inner: leaf_store.query(leaf_pn),
             });
             #[cfg(nomt_verif)]
-            crate::beatree::leaf_cache_verif::observe_insert(leaf_cache, leaf_pn, &leaf);
+            let _verif_order =
+                crate::beatree::leaf_cache_verif::observe_insert(leaf_cache, leaf_pn, &leaf);
             leaf_cache.insert(leaf_pn, leaf.clone());
             leaf
         }
